@@ -99,22 +99,25 @@ func SeverityTable(p *core.Program, r *core.Report, rule string) {
 	_ = n
 	// severities pass through the diff wrapper unchanged and in order
 	if fd := p.Func(core.PkgDiff, "DiffAnalyzer", "getConnlistAnalysis"); fd != nil {
-		info := fd.Pkg.TypesInfo
 		ok := false
-		ast.Inspect(fd.Decl.Body, func(nd ast.Node) bool {
-			c, isC := nd.(*ast.CallExpr)
-			if !isC || len(c.Args) != 5 {
+		units, _ := extractedHelpers(p, fd)
+		for _, u := range units {
+			info := u.Pkg.TypesInfo
+			ast.Inspect(u.Decl.Body, func(nd ast.Node) bool {
+				c, isC := nd.(*ast.CallExpr)
+				if !isC || len(c.Args) != 5 {
+					return true
+				}
+				if fn := core.Callee(info, c); fn == nil || core.RefName(fn) != "newConnectivityAnalysisError" {
+					return true
+				}
+				a3, a4 := core.ExprStr(ResolveLocal(info, u.Decl.Body, c.Args[3])), core.ExprStr(ResolveLocal(info, u.Decl.Body, c.Args[4]))
+				if strings.HasSuffix(a3, ".IsSevere()") && strings.HasSuffix(a4, ".IsFatal()") && strings.TrimSuffix(a3, ".IsSevere()") == strings.TrimSuffix(a4, ".IsFatal()") {
+					ok = true
+				}
 				return true
-			}
-			if fn := core.Callee(info, c); fn == nil || core.RefName(fn) != "newConnectivityAnalysisError" {
-				return true
-			}
-			a3, a4 := core.ExprStr(ResolveLocal(info, fd.Decl.Body, c.Args[3])), core.ExprStr(ResolveLocal(info, fd.Decl.Body, c.Args[4]))
-			if strings.HasSuffix(a3, ".IsSevere()") && strings.HasSuffix(a4, ".IsFatal()") && strings.TrimSuffix(a3, ".IsSevere()") == strings.TrimSuffix(a4, ".IsFatal()") {
-				ok = true
-			}
-			return true
-		})
+			})
+		}
 		r.Check(ok, rule, fd.Key()+": severities of the connlist errors are passed through (isSevere, isFatal) in order", p.Pos(fd.Decl.Pos()), "newConnectivityAnalysisError(..., e.IsSevere(), e.IsFatal())", "the diff analyzer does not hand the severity and fatality of each connlist error on unchanged")
 	} else {
 		r.Lost(rule, "(*DiffAnalyzer).getConnlistAnalysis")
@@ -219,55 +222,83 @@ func StopGates(p *core.Program, r *core.Report, rule string) {
 	}
 	// diff: getConnlistAnalysis decides after ALL errors were recorded, outside any loop; callers return when told to stop
 	if fd := p.Func(core.PkgDiff, "DiffAnalyzer", "getConnlistAnalysis"); fd != nil {
-		info := fd.Pkg.TypesInfo
-		w := facts.NewWalker(info)
 		var stopCalls, inLoop int
 		lastAppendPos := token.NoPos
 		var stopPos token.Pos
-		w.OnExpr = func(e ast.Expr, f facts.Formula) {
-			c, ok := e.(*ast.CallExpr)
-			if !ok {
-				return
-			}
-			if fn := core.Callee(info, c); fn != nil && core.RefName(fn) == "stopProcessing" {
-				stopCalls++
-				stopPos = c.Pos()
-				if len(w.Loops) > 0 {
-					inLoop++
-				}
-			}
-		}
-		ast.Inspect(fd.Decl.Body, func(nd ast.Node) bool {
-			if as, ok := nd.(*ast.AssignStmt); ok && len(as.Lhs) == 1 {
-				if f := core.FieldOf(info, as.Lhs[0]); f != nil && core.RefName(f) == "errors" && as.Pos() > lastAppendPos {
-					lastAppendPos = as.Pos()
-				}
-			}
-			return true
-		})
-		w.WalkBody(fd.Decl.Body, nil)
-		r.Check(stopCalls == 1 && inLoop == 0 && stopPos > lastAppendPos, rule, fd.Key()+": the stop decision is taken once, after every error of this directory was recorded", p.Pos(fd.Decl.Pos()),
-			"one stopProcessing() call, outside loops, after the last append to da.errors", "the stop decision is taken inside the loop over the errors or before all of them are recorded: only some errors decide")
-		// the flag returned is true whenever stopProcessing() held
-		okFlag := false
-		ast.Inspect(fd.Decl.Body, func(nd ast.Node) bool {
-			ifs, ok := nd.(*ast.IfStmt)
-			if !ok {
-				return true
-			}
-			if c, ok := ast.Unparen(ifs.Cond).(*ast.CallExpr); ok {
-				if fn := core.Callee(info, c); fn != nil && core.RefName(fn) == "stopProcessing" {
-					for _, st := range ifs.Body.List {
-						if as, ok := st.(*ast.AssignStmt); ok && len(as.Rhs) == 1 {
-							if v, _ := core.ConstString(info, as.Rhs[0]); v == "true" {
-								okFlag = true
-							}
+		units, callPos := extractedHelpers(p, fd)
+		// helpers called inside a loop of fd count as "in a loop"
+		helperInLoop := map[*core.FuncDecl]bool{}
+		{
+			w0 := facts.NewWalker(fd.Pkg.TypesInfo)
+			w0.OnExpr = func(e ast.Expr, f facts.Formula) {
+				if c, ok := e.(*ast.CallExpr); ok && len(w0.Loops) > 0 {
+					if fn := core.Callee(fd.Pkg.TypesInfo, c); fn != nil {
+						if h := p.ByObj[fn]; h != nil {
+							helperInLoop[h] = true
 						}
 					}
 				}
 			}
-			return true
-		})
+			w0.WalkBody(fd.Decl.Body, nil)
+		}
+		for _, u := range units {
+			u := u
+			info := u.Pkg.TypesInfo
+			at := func(pos token.Pos) token.Pos { // position in fd of a statement of u
+				if u == fd {
+					return pos
+				}
+				return callPos[u]
+			}
+			w := facts.NewWalker(info)
+			w.OnExpr = func(e ast.Expr, f facts.Formula) {
+				c, ok := e.(*ast.CallExpr)
+				if !ok {
+					return
+				}
+				if fn := core.Callee(info, c); fn != nil && core.RefName(fn) == "stopProcessing" {
+					stopCalls++
+					stopPos = at(c.Pos())
+					if len(w.Loops) > 0 || helperInLoop[u] {
+						inLoop++
+					}
+				}
+			}
+			ast.Inspect(u.Decl.Body, func(nd ast.Node) bool {
+				if as, ok := nd.(*ast.AssignStmt); ok && len(as.Lhs) == 1 {
+					if f := core.FieldOf(info, as.Lhs[0]); f != nil && core.RefName(f) == "errors" && at(as.Pos()) > lastAppendPos {
+						lastAppendPos = at(as.Pos())
+					}
+				}
+				return true
+			})
+			w.WalkBody(u.Decl.Body, nil)
+		}
+		r.Check(stopCalls == 1 && inLoop == 0 && stopPos > lastAppendPos, rule, fd.Key()+": the stop decision is taken once, after every error of this directory was recorded", p.Pos(fd.Decl.Pos()),
+			"one stopProcessing() call, outside loops, after the last append to da.errors", "the stop decision is taken inside the loop over the errors or before all of them are recorded: only some errors decide")
+		// the flag returned is true whenever stopProcessing() held
+		okFlag := false
+		for _, u := range units {
+			info := u.Pkg.TypesInfo
+			ast.Inspect(u.Decl.Body, func(nd ast.Node) bool {
+				ifs, ok := nd.(*ast.IfStmt)
+				if !ok {
+					return true
+				}
+				if c, ok := ast.Unparen(ifs.Cond).(*ast.CallExpr); ok {
+					if fn := core.Callee(info, c); fn != nil && core.RefName(fn) == "stopProcessing" {
+						for _, st := range ifs.Body.List {
+							if as, ok := st.(*ast.AssignStmt); ok && len(as.Rhs) == 1 {
+								if v, _ := core.ConstString(info, as.Rhs[0]); v == "true" {
+									okFlag = true
+								}
+							}
+						}
+					}
+				}
+				return true
+			})
+		}
 		r.Check(okFlag, rule, fd.Key()+": the caller is told to stop whenever stopProcessing() holds", p.Pos(fd.Decl.Pos()), "shouldStop = true under stopProcessing()", "the stop flag is not set under stopProcessing()")
 	} else {
 		r.Lost(rule, "getConnlistAnalysis")
@@ -850,4 +881,34 @@ func ErrorsNotDropped(p *core.Program, r *core.Report, rule string) {
 	}
 	r.RuleCounts[rule+"-sites"] = n
 	r.Floor(rule+"-sites", 100)
+}
+
+// extractedHelpers returns fd followed by the module functions it calls that the reference tree does not have - blocks
+// of fd that were extracted into helpers since the rules were confirmed - and, for each of them, the position in fd of
+// the first call to it. Rules that read "the statements of fd" read those bodies too, placing a helper's statements at
+// the position of its call.
+func extractedHelpers(p *core.Program, fd *core.FuncDecl) (units []*core.FuncDecl, callPos map[*core.FuncDecl]token.Pos) {
+	units = []*core.FuncDecl{fd}
+	callPos = map[*core.FuncDecl]token.Pos{}
+	info := fd.Pkg.TypesInfo
+	ast.Inspect(fd.Decl.Body, func(nd ast.Node) bool {
+		c, ok := nd.(*ast.CallExpr)
+		if !ok {
+			return true
+		}
+		fn := core.Callee(info, c)
+		if fn == nil || !p.IsModuleFunc(fn) {
+			return true
+		}
+		h := p.ByObj[fn]
+		if h == nil || h == fd || h.Pkg != fd.Pkg || p.RefHasFunc(h.Key()) {
+			return true
+		}
+		if _, seen := callPos[h]; !seen {
+			callPos[h] = c.Pos()
+			units = append(units, h)
+		}
+		return true
+	})
+	return units, callPos
 }
